@@ -4,6 +4,7 @@ import (
 	"fmt"
 	"strconv"
 
+	"github.com/philpearl/plenc"
 	"github.com/philpearl/plenc/plenccore"
 )
 
@@ -93,4 +94,47 @@ func oracleJDeep(op *Sexp, res string) []string {
 		return []string{fmt.Sprintf("%s nested arrays decoded to %q", op.List[1].Atom, res)}
 	}
 	return nil
+}
+
+// (tdeep N): the typed decoder on a recursive struct (Rec, through its Next pointer) nested N
+// deep: one stack frame per level, with no limit (finding F20). Oracle only.
+func execTDeep(s *Sexp) string {
+	if len(s.List) != 2 {
+		return "bad-op"
+	}
+	n, err := strconv.Atoi(s.List[1].Atom)
+	if err != nil || n < 1 {
+		return "bad-op"
+	}
+	return guard(func() string {
+		// innermost Rec{V: 1} = 08 02; each level around it: tag(2, WTLength) ++ varint(len) ++ inner
+		buf := make([]byte, 0, 8*n+16)
+		rev := func(b []byte) {
+			for i := len(b) - 1; i >= 0; i-- {
+				buf = append(buf, b[i])
+			}
+		}
+		rev([]byte{0x08, 0x02})
+		size := 2
+		for level := 0; level < n; level++ {
+			l := plenccore.AppendVarUint(nil, uint64(size))
+			rev(l)
+			buf = append(buf, 0x12)
+			size += len(l) + 1
+		}
+		for i, j := 0, len(buf)-1; i < j; i, j = i+1, j-1 {
+			buf[i], buf[j] = buf[j], buf[i]
+		}
+		p := &plenc.Plenc{}
+		p.RegisterDefaultCodecs()
+		var out Rec
+		if err := p.Unmarshal(buf, &out); err != nil {
+			return "err"
+		}
+		depth := 0
+		for cur := &out; cur.Next != nil; cur = cur.Next {
+			depth++
+		}
+		return "ok " + strconv.Itoa(depth)
+	})
 }
